@@ -47,13 +47,29 @@ def run_subprocess(args, timeout=600, extra_env=None, cwd=None):
     if extra_env:
         e.update({k: str(v) for k, v in extra_env.items()})
     cmd = [env.PYTHON, "-c", "import sys; sys.argv[0]='mchap'; from mchap.application.cli import main; main()"] + [str(a) for a in args]
-    try:
-        r = subprocess.run(cmd, env=e, cwd=cwd, timeout=timeout, capture_output=True, text=True)
-        return r.returncode, r.stdout, r.stderr
-    except subprocess.TimeoutExpired as ex:
-        so = ex.stdout.decode() if isinstance(ex.stdout, bytes) else (ex.stdout or "")
-        se = ex.stderr.decode() if isinstance(ex.stderr, bytes) else (ex.stderr or "")
-        return "timeout", so, se
+    # own session: on a timeout the WHOLE process group is killed - a hung multi-core run leaves pool workers and a writer
+    # process behind that would otherwise spin for ever (and hold the pipes open)
+    import signal
+    import tempfile
+
+    with tempfile.TemporaryFile("w+") as fo, tempfile.TemporaryFile("w+") as fe:
+        proc = subprocess.Popen(cmd, env=e, cwd=cwd, stdout=fo, stderr=fe, text=True, start_new_session=True)
+        try:
+            rc = proc.wait(timeout=timeout)
+        except subprocess.TimeoutExpired:
+            rc = "timeout"
+        finally:
+            try:
+                os.killpg(proc.pid, signal.SIGKILL)
+            except (ProcessLookupError, PermissionError):
+                pass
+            try:
+                proc.wait(timeout=30)
+            except subprocess.TimeoutExpired:
+                pass
+        fo.seek(0)
+        fe.seek(0)
+        return rc, fo.read(), fe.read()
 
 
 def record_lines(text):
